@@ -69,6 +69,13 @@ def to_fp(node, env, width=32):
         return ("fp", z3.fpRoundToIntegral(z3.RTN(), as_fp(to_fp(node.args[0], env, width))))
     if isinstance(node, ast.Call) and ast.unparse(node.func) in ("np.round", "np.rint") and len(node.args) == 1:
         return ("fp", z3.fpRoundToIntegral(z3.RNE(), as_fp(to_fp(node.args[0], env, width))))
+    if isinstance(node, ast.Call) and ast.unparse(node.func) in ("abs", "np.abs", "np.absolute", "math.fabs") and len(node.args) == 1:
+        return ("fp", z3.fpAbs(as_fp(to_fp(node.args[0], env, width))))
+    if isinstance(node, ast.IfExp):
+        return ite(cond_to_bool(node.test, env, width), to_fp(node.body, env, width), to_fp(node.orelse, env, width))
+    if isinstance(node, ast.UnaryOp) and isinstance(node.op, ast.USub):
+        v = to_fp(node.operand, env, width)
+        return ("bv", -v[1]) if v[0] == "bv" else ("fp", z3.fpNeg(v[1]))
     raise Untranslatable(ast.unparse(node))
 
 
@@ -78,12 +85,90 @@ def as_fp(v):
     return z3.fpSignedToFP(RNE, v[1], F64)
 
 
-def split_count_query(fs_bits, m_bits, goal="exact"):
-    """Constraints whose satisfiability is a violation:  fs (integer sampling rate, dt = 1/fs as the readers compute it),
-    w = requested window length (any double with w*fs == m exactly), k = samples_per_window - 1 as the code computes it."""
+def cond_to_bool(node, env, width):
+    """AST condition -> z3 Bool (comparisons, and/or/not, np.isclose)."""
+    if isinstance(node, ast.BoolOp):
+        parts = [cond_to_bool(v, env, width) for v in node.values]
+        return z3.And(*parts) if isinstance(node.op, ast.And) else z3.Or(*parts)
+    if isinstance(node, ast.UnaryOp) and isinstance(node.op, ast.Not):
+        return z3.Not(cond_to_bool(node.operand, env, width))
+    if isinstance(node, ast.Compare) and len(node.ops) == 1:
+        l, r = to_fp(node.left, env, width), to_fp(node.comparators[0], env, width)
+        if l[0] == "bv" and r[0] == "bv":
+            a, b = l[1], r[1]
+            return {ast.Lt: a < b, ast.LtE: a <= b, ast.Gt: a > b, ast.GtE: a >= b, ast.Eq: a == b, ast.NotEq: a != b}[type(node.ops[0])]
+        a, b = as_fp(l), as_fp(r)
+        return {ast.Lt: z3.fpLT(a, b), ast.LtE: z3.fpLEQ(a, b), ast.Gt: z3.fpGT(a, b), ast.GtE: z3.fpGEQ(a, b), ast.Eq: z3.fpEQ(a, b), ast.NotEq: z3.Not(z3.fpEQ(a, b))}[type(node.ops[0])]
+    if isinstance(node, ast.Call) and ast.unparse(node.func) in ("np.isclose", "math.isclose"):
+        a, b = as_fp(to_fp(node.args[0], env, width)), as_fp(to_fp(node.args[1], env, width))
+        kw = {k.arg: k.value.value for k in node.keywords if isinstance(k.value, ast.Constant)}
+        if ast.unparse(node.func) == "np.isclose":
+            rtol, atol = kw.get("rtol", 1e-05), kw.get("atol", 1e-08)
+            bound = z3.fpAdd(RNE, z3.FPVal(atol, F64), z3.fpMul(RNE, z3.FPVal(rtol, F64), z3.fpAbs(b)))
+        else:
+            rel, ab = kw.get("rel_tol", 1e-09), kw.get("abs_tol", 0.0)
+            m = z3.If(z3.fpGT(z3.fpAbs(a), z3.fpAbs(b)), z3.fpAbs(a), z3.fpAbs(b))
+            bound = z3.If(z3.fpGT(z3.fpMul(RNE, z3.FPVal(rel, F64), m), z3.FPVal(ab, F64)), z3.fpMul(RNE, z3.FPVal(rel, F64), m), z3.FPVal(ab, F64))
+        return z3.fpLEQ(z3.fpAbs(z3.fpSub(RNE, a, b)), bound)
+    raise Untranslatable(ast.unparse(node))
+
+
+def ite(c, a, b):
+    if a[0] == "bv" and b[0] == "bv":
+        return ("bv", z3.If(c, a[1], b[1]))
+    return ("fp", z3.If(c, as_fp(a), as_fp(b)))
+
+
+def run_block(stmts, env, width, until):
+    """Symbolically execute straight-line statements with if/else (assignments to names only) until `until` is assigned."""
+    for st in stmts:
+        if isinstance(st, ast.Expr) and isinstance(st.value, ast.Constant):
+            continue                       # docstring
+        if isinstance(st, ast.Assign) and len(st.targets) == 1 and isinstance(st.targets[0], ast.Name):
+            env[st.targets[0].id] = to_fp(st.value, env, width)
+            if st.targets[0].id == until:
+                return True
+        elif isinstance(st, ast.AugAssign) and isinstance(st.target, ast.Name):
+            env[st.target.id] = to_fp(ast.BinOp(left=ast.Name(id=st.target.id, ctx=ast.Load()), op=st.op, right=st.value), env, width)
+            if st.target.id == until:
+                return True
+        elif isinstance(st, ast.If):
+            c = cond_to_bool(st.test, env, width)
+            e1, e2 = dict(env), dict(env)
+            d1 = run_block(st.body, e1, width, until)
+            d2 = run_block(st.orelse, e2, width, until)
+            for k in set(e1) | set(e2):
+                if k in e1 and k in e2:
+                    env[k] = e1[k] if e1[k] is e2[k] else ite(c, e1[k], e2[k])
+            if d1 and d2:
+                return True
+            if d1 or d2:
+                raise Untranslatable(f"{until} assigned on one branch only")
+        else:
+            raise Untranslatable(ast.unparse(st)[:80])
+    return False
+
+
+def split_samples_per_window(env, width=32):
+    """samples_per_window as computed by the current source of TimeSeries.split (statements up to its assignment)."""
     src = open(os.path.join(REPO, "hvsrpy", "timeseries.py")).read()
     tree = ast.parse(src)
-    expr = find_assignment(tree, "split", "samples_per_window")
+    for n in ast.walk(tree):
+        if isinstance(n, ast.FunctionDef) and n.name == "split":
+            if not run_block(n.body, env, width, "samples_per_window"):
+                raise Untranslatable("samples_per_window is never assigned at the top level of split()")
+            lines = []
+            for st in n.body:
+                if isinstance(st, ast.Expr) and isinstance(st.value, ast.Constant):
+                    continue
+                lines.append(ast.unparse(st))
+                if isinstance(st, ast.Assign) and ast.unparse(st.targets[0]) == "samples_per_window":
+                    break
+            return env["samples_per_window"], " ; ".join(lines)
+    raise Untranslatable("TimeSeries.split not found")
+
+
+def _k_term(fs_bits, m_bits):
     fs = z3.BitVec("fs", fs_bits)
     m = z3.BitVec("m", m_bits)
     W = 32
@@ -92,14 +177,32 @@ def split_count_query(fs_bits, m_bits, goal="exact"):
     dt = z3.fpDiv(RNE, z3.FPVal(1.0, F64), fsf)
     w = z3.FP("w", F64)
     env = {"window_length_in_seconds": ("fp", w), "self.dt_in_seconds": ("fp", dt)}
-    spw = to_fp(expr, env, W)
+    spw, src = split_samples_per_window(env, W)
     if spw[0] != "bv":
         spw = ("bv", z3.fpToSBV(z3.RTZ(), spw[1], z3.BitVecSort(W)))
     k = spw[1] - z3.BitVecVal(1, W)
+    return fs, m, w, fsf, mf, k, src, W
+
+
+def split_count_query(fs_bits, m_bits, goal="exact"):
+    """Constraints whose satisfiability is a violation:  fs (integer sampling rate, dt = 1/fs as the readers compute it),
+    w = requested window length (any double with w*fs == m exactly), k = samples_per_window - 1 as the code computes it."""
+    fs, m, w, fsf, mf, k, src, W = _k_term(fs_bits, m_bits)
     cs = [z3.UGE(fs, 1), z3.UGE(m, 1),
           z3.fpMul(z3.RTP(), w, fsf) == mf, z3.fpMul(z3.RTN(), w, fsf) == mf,     # w * fs == m exactly
           k != z3.ZeroExt(W - m_bits, m)]
-    return cs, {"fs": fs, "m": m, "w": w, "k": k}, ast.unparse(expr)
+    return cs, {"fs": fs, "m": m, "w": w, "k": k}, src
+
+
+def split_floor_query(fs_bits, m_bits):
+    """Non-multiples: a window length with  m <= w*fs <= m + 1 - 2**-16  (clearly below the next whole interval) holds
+    exactly m whole sample intervals.  (Nothing is demanded within 2**-16 of a sample below an integer.)"""
+    fs, m, w, fsf, mf, k, src, W = _k_term(fs_bits, m_bits)
+    hi = z3.fpAdd(RNE, mf, z3.FPVal(1.0 - 2.0 ** -16, F64))          # exact: m < 2**m_bits
+    cs = [z3.UGE(fs, 1), z3.UGE(m, 1),
+          z3.fpGEQ(z3.fpMul(z3.RTN(), w, fsf), mf), z3.fpLEQ(z3.fpMul(z3.RTP(), w, fsf), hi),
+          k != z3.ZeroExt(W - m_bits, m)]
+    return cs, {"fs": fs, "m": m, "w": w, "k": k}, src
 
 
 def window_count_query(n_bits, k_bits):
@@ -117,55 +220,90 @@ def window_count_query(n_bits, k_bits):
     return cs, {"N": N, "k": k, "n_windows": nw[1]}, ast.unparse(expr)
 
 
-def solve_both(cs, timeout_s=120, want_model=None):
-    """-> dict(z3=..., cvc5=..., verdict=sat|unsat|unknown|disagree, model=...)"""
+def _parse_cli_model(txt):
+    """constants of a z3 / cvc5 (get-model) answer: bit-vectors as ints, binary64 literals as floats."""
+    import re
+    import struct
     out = {}
+    for name, val in re.findall(r"\(define-fun (\w+) \(\) \(_ BitVec \d+\)\s+(#[xb][0-9a-fA-F]+)\)", txt):
+        out[name] = int(val[2:], 16 if val[1] == "x" else 2)
+    for name, sg, ex, mant in re.findall(r"\(define-fun (\w+) \(\) \(_ FloatingPoint 11 53\)\s+\(fp (#b[01]) (#b[01]{11}) (#x[0-9a-fA-F]{13})\)\)", txt):
+        bits = (int(sg[2:], 2) << 63) | (int(ex[2:], 2) << 52) | int(mant[2:], 16)
+        out[name] = struct.unpack(">d", struct.pack(">Q", bits))[0]
+    return out
+
+
+def solve_both(cs, timeout_s=120, want_model=None, grace_s=15):
+    """The z3 command line solver (5.1.0 wheel CLI `z3-new`, else /usr/bin/z3) and the cvc5 binary run side by side on the same
+    SMT-LIB2 file; when one decides, the other gets `grace_s` more seconds, then it is stopped.  A verdict counts only if it is
+    the first output line and no `(error` line accompanies it; two verdicts must agree.
+    -> dict(z3=..., cvc5=..., verdict=sat|unsat|unknown|disagree, model=...)"""
+    import shutil
     s = z3.Solver()
-    s.set("timeout", int(timeout_s * 1000))
     s.add(*cs)
-    smt2 = "(set-logic QF_BVFP)\n" + s.to_smt2().replace("(set-info :status unknown)\n", "")
-    # cvc5 binary in the background (needs a file)
+    body = "(set-logic QF_BVFP)\n" + s.to_smt2().replace("(set-info :status unknown)\n", "")
     f = tempfile.NamedTemporaryFile("w", suffix=".smt2", delete=False)
-    f.write(smt2)
+    f.write(body.replace("(check-sat)", "(check-sat)\n(get-model)") if want_model else body)
     f.close()
+    f2 = tempfile.NamedTemporaryFile("w", suffix=".smt2", delete=False)
+    f2.write(body)
+    f2.close()
+    zbin = shutil.which("z3-new") or shutil.which("z3")
+    procs = {}
     t0 = time.time()
-    try:
-        proc = subprocess.Popen(["cvc5", "--produce-models", f"--tlimit={int(timeout_s * 1000)}", f.name], stdout=subprocess.PIPE, stderr=subprocess.STDOUT, text=True)
-    except FileNotFoundError:
-        proc = None
-    t1 = time.time()
-    r = s.check()
-    out["z3"] = str(r)
-    out["z3_s"] = round(time.time() - t1, 1)
-    model = None
-    if r == z3.sat and want_model:
-        md = s.model()
-        model = {}
-        for name, term in want_model.items():
-            v = md.eval(term, model_completion=True)
-            if z3.is_fp(v):
-                model[name] = float(eval(str(z3.simplify(z3.fpToReal(v)).as_fraction()))) if hasattr(z3.simplify(z3.fpToReal(v)), "as_fraction") else str(v)
-            else:
-                model[name] = v.as_signed_long() if name in ("k", "n_windows") else v.as_long()
-    if proc is not None:
+    if zbin:
+        procs["z3"] = subprocess.Popen([zbin, f"-T:{int(timeout_s)}", f.name], stdout=subprocess.PIPE, stderr=subprocess.STDOUT, text=True)
+    if shutil.which("cvc5"):
+        procs["cvc5"] = subprocess.Popen(["cvc5", f"--tlimit={int(timeout_s * 1000)}", f2.name], stdout=subprocess.PIPE, stderr=subprocess.STDOUT, text=True)
+    res, txts, first_done = {}, {}, None
+    while len(res) < len(procs):
+        for name, p in procs.items():
+            if name in res or p.poll() is None:
+                continue
+            txt = p.stdout.read()
+            txts[name] = txt
+            head = txt.strip().splitlines()[0].strip() if txt.strip() else "unknown"
+            errs = [l for l in txt.splitlines() if "(error" in l and "model is not available" not in l]
+            res[name] = (head if head in ("sat", "unsat") and not errs else "unknown", round(time.time() - t0, 1))
+            if res[name][0] in ("sat", "unsat") and first_done is None:
+                first_done = time.time()
+        if len(res) == len(procs):
+            break
+        if (first_done is not None and time.time() - first_done > grace_s) or time.time() - t0 > timeout_s + 10:
+            for name, p in procs.items():
+                if name not in res:
+                    p.kill()
+                    res[name] = ("unknown", round(time.time() - t0, 1))
+            break
+        time.sleep(0.2)
+    for path in (f.name, f2.name):
         try:
-            txt, _ = proc.communicate(timeout=max(1, timeout_s + 5 - (time.time() - t0)))
-        except subprocess.TimeoutExpired:
-            proc.kill()
-            txt = "timeout"
-        first = txt.strip().splitlines()[0] if txt.strip() else "unknown"
-        out["cvc5"] = "unknown" if ("(error" in txt or first not in ("sat", "unsat")) else first
-        out["cvc5_s"] = round(time.time() - t0, 1)
-    else:
-        out["cvc5"] = "unavailable"
-    os.unlink(f.name)
-    zs, cv = out["z3"], out["cvc5"]
-    decided = [v for v in (zs, cv) if v in ("sat", "unsat")]
-    if len(set(decided)) > 1:
-        out["verdict"] = "disagree"
-    elif decided:
-        out["verdict"] = decided[0]
-    else:
-        out["verdict"] = "unknown"
+            os.unlink(path)
+        except OSError:
+            pass
+    out = {"z3": res.get("z3", ("unavailable", 0))[0], "z3_s": res.get("z3", ("", 0))[1],
+           "cvc5": res.get("cvc5", ("unavailable", 0))[0], "cvc5_s": res.get("cvc5", ("", 0))[1]}
+    decided = [v for v in (out["z3"], out["cvc5"]) if v in ("sat", "unsat")]
+    out["verdict"] = "disagree" if len(set(decided)) > 1 else (decided[0] if decided else "unknown")
+    model = None
+    if out["verdict"] == "sat" and want_model:
+        if out["z3"] == "sat":
+            model = _parse_cli_model(txts.get("z3", ""))
+        if not model:
+            # cvc5 decided first: ask z3 in-process for a model within a short budget
+            s.set("timeout", 60000)
+            if s.check() == z3.sat:
+                md = s.model()
+                model = {}
+                for name, term in want_model.items():
+                    v = md.eval(term, model_completion=True)
+                    if z3.is_fp(v):
+                        rv = z3.simplify(z3.fpToReal(v))
+                        model[name] = float(rv.as_fraction()) if hasattr(rv, "as_fraction") else str(v)
+                    elif z3.is_bv_value(v):
+                        model[name] = v.as_long()
+        if model is not None:
+            for k_ in ("k", "n_windows"):
+                model.setdefault(k_, None)
     out["model"] = model
     return out
